@@ -118,31 +118,31 @@ package forwarder
 //@ func (s msgServer) PauseProtocol(ctx, msg) (resp, err)
 //@   requires[base] msg != nil && s.Forwarder != nil && s.Authorizer != nil && s.Forwarder.eventService != nil
 //@   modifies ks_i32, ks_pair, events
-//@   ensures[C08] err == nil ==> ks_pair == old(ks_pair) && exists p int :: !old(protoPaused(s.Forwarder, p)) && protoSetIs(s.Forwarder, p, true)
+//@   ensures[C08] err == nil ==> ks_pair == old(ks_pair) && !old(protoPaused(s.Forwarder, protoByName(msg.ProtocolId))) && protoSetIs(s.Forwarder, protoByName(msg.ProtocolId), true)
 
 //@ func (s msgServer) UnpauseProtocol(ctx, msg) (resp, err)
 //@   requires[base] msg != nil && s.Forwarder != nil && s.Authorizer != nil && s.Forwarder.eventService != nil
 //@   modifies ks_i32, ks_pair, events
-//@   ensures[C08] err == nil ==> ks_pair == old(ks_pair) && exists p int :: old(protoPaused(s.Forwarder, p)) && protoSetIs(s.Forwarder, p, false)
+//@   ensures[C08] err == nil ==> ks_pair == old(ks_pair) && old(protoPaused(s.Forwarder, protoByName(msg.ProtocolId))) && protoSetIs(s.Forwarder, protoByName(msg.ProtocolId), false)
 
 //@ func (s msgServer) PauseCrossChains(ctx, msg) (resp, err)
 //@   requires[base] msg != nil && s.Forwarder != nil && s.Authorizer != nil && s.Forwarder.eventService != nil
 //@   modifies ks_i32, ks_pair, events
-//@   ensures[C08] err == nil && len(msg.CounterpartyIds) > 0 ==> ks_i32 == old(ks_i32) && exists p int :: forall j int :: 0 <= j && j < len(msg.CounterpartyIds) ==> ccPaused(s.Forwarder, p, msg.CounterpartyIds[j])
+//@   ensures[C08] err == nil && len(msg.CounterpartyIds) > 0 ==> ks_i32 == old(ks_i32) && forall j int :: 0 <= j && j < len(msg.CounterpartyIds) ==> ccPaused(s.Forwarder, protoByName(msg.ProtocolId), msg.CounterpartyIds[j])
 
 //@ func (s msgServer) UnpauseCrossChains(ctx, msg) (resp, err)
 //@   requires[base] msg != nil && s.Forwarder != nil && s.Authorizer != nil && s.Forwarder.eventService != nil
 //@   modifies ks_i32, ks_pair, events
-//@   ensures[C08] err == nil && len(msg.CounterpartyIds) > 0 ==> ks_i32 == old(ks_i32) && exists p int :: forall j int :: 0 <= j && j < len(msg.CounterpartyIds) ==> !ccPaused(s.Forwarder, p, msg.CounterpartyIds[j])
+//@   ensures[C08] err == nil && len(msg.CounterpartyIds) > 0 ==> ks_i32 == old(ks_i32) && forall j int :: 0 <= j && j < len(msg.CounterpartyIds) ==> !ccPaused(s.Forwarder, protoByName(msg.ProtocolId), msg.CounterpartyIds[j])
 
 // Queries report the current sets.
 //@ func (s queryServer) IsProtocolPaused(ctx, req) (resp, err)
 //@   requires[base] s.Forwarder != nil
-//@   ensures[C08] err == nil ==> resp != nil && exists p int :: resp.IsPaused == protoPaused(s.Forwarder, p)
+//@   ensures[C08] err == nil ==> resp != nil && req != nil && resp.IsPaused == protoPaused(s.Forwarder, protoByName(req.ProtocolId))
 
 //@ func (s queryServer) IsCrossChainPaused(ctx, req) (resp, err)
 //@   requires[base] s.Forwarder != nil
-//@   ensures[C08] err == nil ==> resp != nil && exists p int :: resp.IsPaused == ccPaused(s.Forwarder, p, req.CounterpartyId)
+//@   ensures[C08] err == nil ==> resp != nil && req != nil && resp.IsPaused == ccPaused(s.Forwarder, protoByName(req.ProtocolId), req.CounterpartyId)
 
 // ---------------------------------------------------------------------------------------------
 // Deposit replacement reaches CCTP with exactly the message's fields and the orbiter as owner (C05)
